@@ -55,7 +55,7 @@ func (g *jsGen) expr(d int) string {
 		return g.v()
 	}
 	sub := func() string { return g.expr(d - 1) }
-	switch g.r.Intn(31) {
+	switch g.r.Intn(34) {
 	case 0, 1:
 		return g.prim()
 	case 2, 3:
@@ -153,6 +153,20 @@ func (g *jsGen) expr(d int) string {
 		g.feat["caller"] = true
 		return g.pick("(function g(){return (function f(){return f.caller===g})()})()", fmt.Sprintf("(function(){return %s.caller})()", g.v()),
 			"(function g(){return [1].map(function f(){return String(f.caller).slice(0,12)})[0]})()")
+	case 30:
+		// a function whose every call evaluates a literal: each call must build a NEW object of the
+		// runtime it is called on (also after Copy(), also when it was already called before the copy)
+		g.feat["literal-factory"] = true
+		return g.pick("(function(){return /a+/i})", "(function(){return /x/})", "(function(){return /b/g})", "(function(){return /c/m})",
+			"(function(){return {a:1}})", "(function(){return [1,2]})", "(function(){return function(){return 1}})", "(function(){return [/y/, {}, []]})")
+	case 31:
+		g.feat["realm-check"] = true
+		v := g.v()
+		return g.pick(
+			fmt.Sprintf("(function(x){return [x instanceof RegExp, Object.getPrototypeOf(x)===RegExp.prototype, x instanceof Array, Object.getPrototypeOf(x)===Array.prototype, x instanceof Function, x instanceof Object, Object.getPrototypeOf(x)===Object.prototype, x.constructor===RegExp, x.mark, x.lastIndex].join()})(%s())", v),
+			fmt.Sprintf("%s()===%s()", v, v),
+			fmt.Sprintf("(function(x){return [x instanceof RegExp, x instanceof Array, x instanceof Object, x.mark].join()})(%s)", v),
+			fmt.Sprintf("(function(x){return x[0] instanceof RegExp && x[1] instanceof Object && x[2] instanceof Array})(%s())", v))
 	default:
 		g.feat["descriptor-read"] = true
 		return fmt.Sprintf("JSON.stringify(Object.getOwnPropertyDescriptor(%s,%s))", g.v(), g.key())
@@ -169,7 +183,7 @@ func (g *jsGen) args(sub func() string) string {
 
 func (g *jsGen) stmt() string {
 	e := func() string { return g.expr(2) }
-	switch g.r.Intn(26) {
+	switch g.r.Intn(27) {
 	case 0, 1, 2, 3, 4:
 		return fmt.Sprintf("%s = %s", g.v(), e())
 	case 5, 6, 7:
@@ -229,6 +243,10 @@ func (g *jsGen) stmt() string {
 	case 21:
 		g.feat["for-in"] = true
 		return fmt.Sprintf("(function(){var ks=[]; for(var k in %s) ks.push(k); return ks.join()})()", g.v())
+	case 23:
+		g.feat["literal-call"] = true
+		return g.pick(fmt.Sprintf("%s = %s()", g.v(), g.v()), fmt.Sprintf("%s().mark = %s", g.v(), e()), fmt.Sprintf("%s().lastIndex = %d", g.v(), g.r.Intn(5)),
+			fmt.Sprintf("%s()[0].mark = %s", g.v(), e()), fmt.Sprintf("Object.getPrototypeOf(%s()).mark = %s", g.v(), e()))
 	case 22:
 		g.feat["own-names"] = true
 		return fmt.Sprintf("Object.getOwnPropertyNames(%s).join()", g.v())
@@ -310,4 +328,22 @@ func fixedHistories() []string {
 		`Object.defineProperty(this,"eval",{get:function(){return 1}})`,
 		`var f=(function(arguments){return function(){return 1}})(1)`,
 	}
+}
+
+// fixedIsolation: (history, mutation) pairs run at every copy shape and side.  Functions that
+// evaluate a literal per call are called in the template BEFORE the copy and on the chosen side
+// afterwards: the objects must be new, belong to the runtime they were made on, and a write through
+// them must stay there.
+func fixedIsolation() [][2]string {
+	h1 := "function fr(){return /x/i} function fg(){return /x/g} function fo(){return {a:1}} function fa(){return [1,2]} function ff(){return function(){return 1}}\n" +
+		"var r0=fr(), g0=fg(), o0=fo(), a0=fa(), f0=ff();"
+	m1 := "var r=fr(); r.mark=1; r.lastIndex=3; var o=fo(); o.mark=1; var a=fa(); a.mark=1; var f=ff(); f.mark=1;\n" +
+		"[r instanceof RegExp, Object.getPrototypeOf(r)===RegExp.prototype, r.constructor===RegExp, r===r0, fr()===fr(), fr().mark, fr().lastIndex, r0.mark, r0.lastIndex," +
+		" fg()===g0, fg() instanceof RegExp, o instanceof Object, Object.getPrototypeOf(o)===Object.prototype, o===o0, o0.mark, a instanceof Array, Object.getPrototypeOf(a)===Array.prototype, a0.mark," +
+		" f instanceof Function, Object.getPrototypeOf(f)===Function.prototype, f0.mark, /q/ instanceof RegExp].join()"
+	h2 := "var mk=function(){ return [/k/, /k/m] }; var first=mk(); first[0].tag=\"template\";"
+	m2 := "var again=mk(); again[0].tag=\"side\"; Object.getPrototypeOf(again[1]).sideMark=1; [again[0]===first[0], first[0].tag, again[0] instanceof RegExp, /z/.sideMark, again[1].sideMark].join()"
+	h3 := "var loop=function(){ var out=[]; for (var i=0;i<3;i++) out.push(/l/); return out }; var l0=loop();"
+	m3 := "var l=loop(); l[0].n=1; [l[0]===l[1], l[0]===l0[0], l[1].n, l0[0].n, l[2] instanceof RegExp].join()"
+	return [][2]string{{h1, m1}, {h2, m2}, {h3, m3}, {h1, "r0.mark=5; fr().mark"}, {h1, "1"}}
 }
